@@ -11,7 +11,7 @@ use std::sync::Arc;
 use std::time::SystemTime;
 use std::{fmt, fs, io};
 
-use chrono::{DateTime, Duration, FixedOffset, Local};
+use chrono::{DateTime, FixedOffset, Local, TimeZone};
 use priority_queue::PriorityQueue;
 use rand::distributions::Alphanumeric;
 use rand::Rng;
@@ -624,11 +624,24 @@ impl AddAssign for DedupeResult {
     }
 }
 
+/// Formats the time for a message, also if it is beyond the range of the calendar
+fn format_system_time(time: SystemTime) -> String {
+    let (seconds, nanos) = match time.duration_since(SystemTime::UNIX_EPOCH) {
+        Ok(since_epoch) => (since_epoch.as_secs() as i64, since_epoch.subsec_nanos()),
+        Err(e) => (-(e.duration().as_secs() as i64), 0),
+    };
+    match Local.timestamp_opt(seconds, nanos).single() {
+        Some(time) => time.format(TIMESTAMP_FMT).to_string(),
+        None => format!("{seconds} seconds since 1970-01-01"),
+    }
+}
+
 /// Returns true if any of the files have been modified after the given timestamp.
 /// Also returns true if file timestamp could not be read.
 fn was_modified(files: &[PathAndMetadata], after: DateTime<FixedOffset>, log: &dyn Log) -> bool {
     let mut result = false;
     let after: DateTime<Local> = after.into();
+    let after_system_time: SystemTime = after.into();
     for PathAndMetadata {
         path: p,
         metadata: m,
@@ -643,22 +656,31 @@ fn was_modified(files: &[PathAndMetadata], after: DateTime<FixedOffset>, log: &d
         });
         match modified {
             Ok(file_timestamp) => {
-                let file_timestamp: DateTime<Local> = file_timestamp.into();
                 // Some file systems keep the timestamps with a resolution of 1 or 2 seconds
                 // (ext3, FAT, HFS+, some network file systems). A file written there after
                 // `after`, but within the same second, gets a timestamp earlier than `after`.
                 // A timestamp without a fractional part has most likely been rounded that way.
-                let resolution = if file_timestamp.timestamp_subsec_nanos() == 0 {
-                    Duration::seconds(2)
-                } else {
-                    Duration::zero()
+                let subsec_nanos = match file_timestamp.duration_since(SystemTime::UNIX_EPOCH) {
+                    Ok(since_epoch) => since_epoch.subsec_nanos(),
+                    Err(e) => e.duration().subsec_nanos(),
                 };
-                if file_timestamp + resolution > after {
+                let resolution = if subsec_nanos == 0 {
+                    std::time::Duration::from_secs(2)
+                } else {
+                    std::time::Duration::ZERO
+                };
+                // The timestamps are compared as they are. File systems can hold times that
+                // are beyond the range of the calendar, such a time is far in the future.
+                let modified_after = match file_timestamp.checked_add(resolution) {
+                    Some(t) => t > after_system_time,
+                    None => true,
+                };
+                if modified_after {
                     log.warn(format!(
                         "File {} was updated after {} (at {})",
                         p.display(),
                         after.format(TIMESTAMP_FMT),
-                        file_timestamp.format(TIMESTAMP_FMT)
+                        format_system_time(file_timestamp)
                     ));
                     result = true;
                 }
